@@ -131,6 +131,138 @@ def run_packer(tools, cmd, out, stdin=None, timeout=10):
     return res, err[-200:]
 
 
+def link_graph_stage(tools, work, rep, ev, tier, rng, cfg, src):
+    """spec/LinkGraph.tla: resolve_link at the granularity of one loop iteration, every graph over N names (file / directory /
+    link to a name / link to nothing) x every order of the unresolved list: Terminates, Correct, OrderFree + liveness.
+    R: every graph TLC emits as a gensquashfs pack file in several declaration orders and as a tar archive: a good graph
+    must pack (link groups as specified), any other one must be refused with a diagnostic - never a hang."""
+    import itertools
+    NQ = 4
+    for n in ((NQ,) if tier == "quick" else (NQ, 5)):
+        write_cfg(cfg, spec="FairSpec", constants={"N": n, "Emit": False, "CycleCheck": '"halfspeed"'},
+                  invariants=["Terminates", "Correct", "OrderFree", "WorkBound"], properties=["Eventually"] if n == NQ else [], deadlock=False)
+        r = run_tlc("LinkGraph", cfg, workers=16, timeout=3000, heap="16g")
+        ev.tlc(r, "LinkGraph N=%d" % n)
+        if not r["ok"]:
+            print("MODEL-FAILURE: LinkGraph violates %s" % r["violated"])
+            return None
+    for dev, inv in (("startonly", "Terminates"), ("window", "Terminates"), ("everyhop", "Correct")):
+        write_cfg(cfg, spec="Spec", constants={"N": NQ, "Emit": False, "CycleCheck": '"%s"' % dev}, invariants=["Terminates", "Correct"], deadlock=False)
+        r = run_tlc("LinkGraph", cfg, workers=8, timeout=900)
+        ev.tlc(r, "dev LinkGraph " + dev)
+        if r["violated"] != inv:
+            print("SELF-CHECK-FAILED: LinkGraph deviation %s gives %s, expected a %s counterexample" % (dev, r["violated"], inv))
+            return None
+    graphs = []
+    for n in ((NQ,) if tier == "quick" else (NQ, 5)):
+        write_cfg(cfg, spec="Spec", constants={"N": n, "Emit": True, "CycleCheck": '"halfspeed"'}, invariants=["EmitOK"], deadlock=False)
+        r = run_tlc("LinkGraph", cfg, workers=4, timeout=3000, heap="16g")
+        graphs += [(n, c) for c in bpbind.parse_emitted(r["out"])]
+    if len(graphs) < 2000:
+        print("SELF-CHECK-FAILED: LinkGraph emitted %d graphs" % len(graphs))
+        return None
+    ev.set("link_graphs_emitted", len(graphs))
+    jobs = []
+    for n, c in graphs:
+        ids = list(range(1, n + 1))
+        if n == NQ and tier != "quick":
+            orders = list(itertools.permutations(ids))
+        else:
+            orders = [tuple(ids), tuple(reversed(ids)), tuple(rng.sample(ids, n))]
+        for o in sorted(set(orders)):
+            jobs.append((n, c, o, "pack"))
+        jobs.append((n, c, tuple(ids), "tar"))
+    if tier != "quick" and len(jobs) > 120000:
+        keep = [j for j in jobs if j[0] == NQ]
+        rest = [j for j in jobs if j[0] != NQ]
+        rng.shuffle(rest)
+        jobs = keep + rest[:120000 - len(keep)]
+
+    def do(ji):
+        n, c, order, how = jobs[ji]
+        g = c["g"]
+        out = "%s/lg%d.sqfs" % (work, ji)
+        if how == "pack":
+            txt = ""
+            for i in order:
+                k = g[i - 1]
+                if k == n + 1:
+                    txt += "file /n%d 0644 0 0 %s\n" % (i, src)
+                elif k == n + 2:
+                    txt += "dir /n%d 0755 0 0\n" % i
+                else:
+                    txt += "link /n%d 0 0 0 /%s\n" % (i, ("n%d" % k) if k else "missing")
+            pf = "%s/lg%d.txt" % (work, ji)
+            open(pf, "w").write(txt)
+            cmd, stdin = [tools + "/gensquashfs", "-q", "-f", "-F", pf, out], None
+        else:
+            arch = b""
+            for i in order:
+                k = g[i - 1]
+                if k == n + 1:
+                    arch += tarfmt.header(b"n%d" % i, b"0", size=3) + tarfmt.pad(b"abc")
+                elif k == n + 2:
+                    arch += tarfmt.header(b"n%d/" % i, b"5", mode=0o755)
+                else:
+                    arch += tarfmt.header(b"n%d" % i, b"1", linkname=(b"n%d" % k) if k else b"missing")
+            cmd, stdin = [tools + "/tar2sqfs", "-q", "-f", out], arch + tarfmt.terminator()
+        if os.path.exists(out):
+            os.unlink(out)
+        try:
+            p = subprocess.run(cmd, input=stdin, stdout=subprocess.DEVNULL, stderr=subprocess.PIPE, timeout=10,
+                               env=dict(os.environ, ASAN_OPTIONS="detect_leaks=0:allocator_may_return_null=1"))
+            rc, err = p.returncode, p.stderr.decode(errors="replace")
+        except subprocess.TimeoutExpired:
+            return ji, "hang", ""
+        res = None
+        if "ERROR: AddressSanitizer" in err:
+            res = "sanitizer"
+        elif rc < 0 or rc in (134, 139):
+            res = "signal"
+        elif rc == 0:
+            try:
+                t = sqfsimg.load(out).tree()
+                if not c["good"]:
+                    res = "accepted-bad-graph"
+                else:
+                    # link groups: names that share an inode
+                    byino = {}
+                    for name, node in t.items():
+                        if name:
+                            byino.setdefault(node["inum"], []).append(name)
+                    for i in range(1, n + 1):
+                        if g[i - 1] == n + 1:
+                            grp = [x for x in byino.values() if ("n%d" % i).encode() in x]
+                            if not grp or len(grp[0]) != c["groups"][i - 1] + 1:
+                                res = "wrong-groups"
+            except Exception as ex:
+                res, err = "invalid-image", str(ex)
+        else:
+            if os.path.exists(out):
+                res = "leftover"
+            elif not err.strip():
+                res = "refuse-silent"
+            elif c["good"]:
+                res = "refused-good-graph"
+        for f in (out, "%s/lg%d.txt" % (work, ji)):
+            if os.path.exists(f):
+                os.unlink(f)
+        return ji, res, err[-200:]
+    n = 0
+    seen = set()
+    with ThreadPoolExecutor(max_workers=16) as ex:
+        for ji, res, err in ex.map(do, range(len(jobs))):
+            n += 1
+            if res and (res, jobs[ji][3]) not in seen:
+                seen.add((res, jobs[ji][3]))
+                nn, c, order, how = jobs[ji]
+                tool = "gensquashfs" if how == "pack" else "tar2sqfs"
+                rep.violation("%s-%s-linkgraph" % (tool, res), "%s on hard-link graph %s (entry i: 1..%d = link to that name, 0 = link to a missing name, %d = file, %d = directory), "
+                              "declared in order %s: %s %s" % (tool, c["g"], nn, nn + 1, nn + 2, list(order), res, err[:150]), data={"graph": c["g"], "order": list(order), "how": how})
+    ev.set("link_graph_runs", n)
+    return n
+
+
 def run(tier):
     ev = Evidence(PID, tier, "exploration")
     rep = Reporter(PID, ev)
@@ -427,6 +559,11 @@ def run(tier):
                 if o in BAD:
                     rep.violation("gensquashfs-%s-%s" % (o, kind), "gensquashfs with a malformed %s (%r): %s %s" % (kind, lines[i][:80], o, err[:120]),
                                   data={"line": lines[i], "kind": kind})
+    ln = link_graph_stage(tools, work, rep, ev, tier, rng, cfg, src)
+    if ln is None:
+        ev.write()
+        return 2
+    evaluations += ln
     ev.set("evaluations", evaluations)
     ev.set("distinct_nontrivial", len(nontrivial))
     ev.set("rule", "archive plans: every plan of <=2 records with <=2 malformed ones x cut x terminator emitted by TLC (all single-record plans + a seeded sample, "
